@@ -401,12 +401,12 @@ def random_scenario(rnd, i):
 def scenarios(ctx):
     rnd = random.Random(ctx.seed * 7919 + 1717)
     out = pinned()
-    L = 4 if ctx.quick else 6
+    L = 4 if ctx.quick else 5
     for b in script_bases(ctx.quick):
         for n in range(L + 1):
             for script in itertools.product([False, True], repeat=n):
                 out.append(dict(b, script=list(script), sched_seed=rnd.randint(0, 10 ** 6), p_ready=rnd.choice([0.0, 0.5, 1.0]), p_run=rnd.choice([0.0, 0.5, 1.0])))
-    out += [random_scenario(rnd, i) for i in range(160 if ctx.quick else 3000)]
+    out += [random_scenario(rnd, i) for i in range(160 if ctx.quick else 1500)]
     return out
 
 
